@@ -38,13 +38,14 @@ def parse_cases(text):
 
 
 def gen_copy_case(r):
-    kind = r.pick(['eq', 'eq', 'heq'])
+    kind = r.pick(['eq', 'eq', 'heq', 'heq'])
+    nk = 4 if kind == 'heq' else 3        # heq: key = 2 * event + prototype
     n = r.range(2, 4)
     alive = [True] + [False] * (n - 1)
     held = {i: [] for i in range(n)}       # guards in flight per object (stack of w)
     main = []
     for _ in range(r.range(2, 6)):
-        main.append(['append', '0', str(r.below(3)), str(r.range(1, 9))])
+        main.append(['append', '0', str(r.below(nk)), str(r.range(1, 9))])
     if kind == 'eq':
         for _ in range(r.below(3)):
             main.append(['addfilter', '0', str(r.range(1, 9)), str(1 if r.chance(70) else 0)])
@@ -76,23 +77,42 @@ def gen_copy_case(r):
             main.append(['guardend', str(o), str(held[o].pop())])
             continue
         if op == 'append':
-            main.append(['append', str(o), str(r.below(3)), str(r.range(1, 9))])
+            main.append(['append', str(o), str(r.below(nk)), str(r.range(1, 9))])
         elif op == 'addfilter':
             main.append(['addfilter', str(o), str(r.range(1, 9)), str(1 if r.chance(70) else 0)])
         elif op == 'enqueue':
-            main.append(['enqueue', str(o), str(r.below(3)), str(r.range(1, 99))])
+            main.append(['enqueue', str(o), str(r.below(nk)), str(r.range(1, 99))])
         elif op == 'dispatch':
-            main.append(['dispatch', str(o), str(r.below(3)), str(r.range(1, 99))])
+            main.append(['dispatch', str(o), str(r.below(nk)), str(r.range(1, 99))])
         elif op in ('process', 'emptyq', 'canprocess'):
             main.append([op, str(o)])
         elif op in ('copyassign', 'moveassign', 'swap'):
-            main.append([op, str(o), str(r.pick(live))])
+            d = r.pick(live)
+            probe = op == 'copyassign' and d != o and r.chance(50)
+            if probe:
+                # touch every key of the source first (a dispatch creates the per-key / per-prototype list even
+                # when nobody listens), then change one side after the copy and look at both
+                main += [['dispatch', str(o), str(k), str(r.range(1, 99))] for k in range(nk)]
+            main.append([op, str(o), str(d)])
+            if probe:
+                k = r.below(nk)
+                side, other = (o, d) if r.chance(50) else (d, o)
+                main += [['append', str(side), str(k), str(r.range(1, 9))],
+                         ['dispatch', str(other), str(k), str(r.range(1, 99))], ['dispatch', str(side), str(k), str(r.range(1, 99))]]
         elif op in ('copyctor', 'movector'):
             d = r.pick(dead)
             alive[d] = True
+            probe = op == 'copyctor' and r.chance(50)
+            if probe:
+                main += [['dispatch', str(o), str(k), str(r.range(1, 99))] for k in range(nk)]
             main.append([op, str(o), str(d)])
+            if probe:
+                k = r.below(nk)
+                side, other = (o, d) if r.chance(50) else (d, o)
+                main += [['append', str(side), str(k), str(r.range(1, 9))],
+                         ['dispatch', str(other), str(k), str(r.range(1, 99))], ['dispatch', str(side), str(k), str(r.range(1, 99))]]
             # what a fresh object must do
-            main += [['emptyq', str(d)], ['enqueue', str(d), str(r.below(3)), str(r.range(1, 99))], ['canprocess', str(d)]]
+            main += [['emptyq', str(d)], ['enqueue', str(d), str(r.below(nk)), str(r.range(1, 99))], ['canprocess', str(d)]]
         elif op == 'new':
             d = r.pick(dead)
             alive[d] = True
